@@ -126,11 +126,14 @@ class FakeSock:
         pass
 
     def bind(self, ha):
+        if getattr(self, "fail_bind", None):
+            raise OSError(self.fail_bind, os.strerror(self.fail_bind))
         self.bound = ha
         self.ha = ha
 
     def listen(self, n):
-        pass
+        if getattr(self, "fail_listen", None):
+            raise OSError(self.fail_listen, os.strerror(self.fail_listen))
 
     def fileno(self):
         return -1 if self.closed else 1000 + self.sid
@@ -505,6 +508,13 @@ def probe_wl_peer(kind, what):
         wl.close()
 
 
+def probe_reopen_clears():
+    """after Server.close() and reopen(), are the (closed) remoters of the previous opening still in .ixes?"""
+    obs = run_server((False, [("conn", 1, [], [], []), ("svc",), ("close",), ("reopen",)]))
+    last = obs[1][-1][1]
+    return not any(e[0] == "ix" for e in last)
+
+
 _TABLES = None
 
 
@@ -617,10 +627,18 @@ def run_server(case):
        ("conn", ca, sends, recvs, hs)  a peer connects (queued on the listen socket)
        ("dconn", ca)  a peer connects and resets before being accepted (getpeername() on its socket raises ENOTCONN)
        ("svc",) | ("tx", ca, bytes) | ("rm", ca) | ("close",) | ("reopen",)
+       ("reopenf", "bind"|"listen", errno)  reopen() whose new listen socket cannot bind / listen (OSError)
     observation = tuple of (status, socks) per op, socks = per socket in creation order:
        ("listen", closed) | (where, cutoff, connected, aborted, rxbs, |txbs|, kacc, closed), where in ix|cx|gone"""
     tls, ops = case[:2]
     via = case[2] if len(case) > 2 else "direct"   # direct | doer (serving.ServerDoer enter/recur/exit) | ctx (serving.openServer)
+    wlcfg = case[3] if len(case) > 3 else None     # None | True/False: a WireLog attached to the server, open / still closed at the start
+    swl = None
+    if wlcfg is not None:
+        from hio.core import wiring
+        swl = wiring.WireLog(samed=False, filed=False)    # a plain WireLog() is closed until reopen()
+        if wlcfg:
+            swl.reopen()
     clienting, serving, TClientTls, TRemoterTls = classes()
     world = World(strict_peer=True)
     rms = {}
@@ -629,9 +647,14 @@ def run_server(case):
     listeners = []
     real_socket = mod.socket
 
+    fail_next = []     # (where, errno) for the next listen socket to be created
+
     def mk(*a, **kw):
         s = real_socket(*a, **kw)
         s.ca = None
+        if fail_next:
+            where, code = fail_next.pop()
+            setattr(s, "fail_" + where, code)
         listeners.append(s)
         return s
     mod.socket = mk
@@ -646,6 +669,8 @@ def run_server(case):
         kw = dict(host="127.0.0.1", port=PORT)
         if tls:
             kw["context"] = shared_context()
+        if swl is not None:
+            kw["wl"] = swl
         cls = serving.ServerTls if tls else serving.Server
         cm = doer = None
         if via == "ctx":
@@ -684,6 +709,8 @@ def run_server(case):
                 st = _status(lambda: server.closeIx(_ca(op[1])))
             elif k == "closeall":
                 st = _status(server.closeAllIx)
+            elif k == "wlopen":
+                st = _status(swl.reopen)
             elif k == "close":
                 if cm is not None and iop == nops - 1:
                     st = _status(lambda: cm.__exit__(None, None, None))
@@ -691,8 +718,13 @@ def run_server(case):
                     st = _status(doer.exit if doer else server.close)
             elif k == "reopen":
                 st = _status(doer.enter if doer else server.reopen)
+            elif k == "reopenf":   # reopen while the address cannot be had: bind()/listen() of the new listen socket raises
+                fail_next.append((op[1], op[2]))
+                st = _status(doer.enter if doer else server.reopen)
+                del fail_next[:]
             else:
                 raise core.Infra(f"bad op {op!r}")
+            wlog = _parse_shared_log(swl) if swl is not None else None
             snap = []
             for s in world.socks:
                 if s in listeners:
@@ -700,17 +732,55 @@ def run_server(case):
                     continue
                 rm = rms.get(s.sid)
                 if rm is None:   # created and replaced within one service pass: never seen in a table
-                    snap.append(("gone", False, False, False, b"", 0, bytes(s.kacc), s.closed, tuple(s.hards)))
+                    snap.append(("gone", False, False, False, b"", 0, bytes(s.kacc), s.closed) + ((b"", b"") if wlog is not None else ()) + (tuple(s.hards),))
                     continue
                 where = "gone"
                 if any(v is rm for v in server.ixes.values()):
                     where = "ix"
                 elif tls and any(v is rm for v in server.cxes.values()):
                     where = "cx"
-                snap.append((where, bool(rm.cutoff), bool(getattr(rm, "connected", True)), bool(getattr(rm, "aborted", False)),
-                             bytes(rm.rxbs), len(rm.txbs), bytes(s.kacc), s.closed, tuple(s.hards)))
+                e = (where, bool(rm.cutoff), bool(getattr(rm, "connected", True)), bool(getattr(rm, "aborted", False)),
+                     bytes(rm.rxbs), len(rm.txbs), bytes(s.kacc), s.closed)
+                if wlog is not None:
+                    e += wlog.get(str(s.ca).encode(), (b"", b"")) if isinstance(wlog, dict) else (b"?unparsable", b"?unparsable")
+                snap.append(e + (tuple(s.hards),))
             out.append((st, tuple(snap)))
     return (st0, tuple(out))
+
+
+def _parse_shared_log(wl):
+    """{who: (tx bytes, rx bytes)} from a WireLog in the default format shared by several connections, or None if it does
+    not parse completely into `\\n<Rx|Tx> <who>:\\n<data [a-z]*>\\n` entries"""
+    import re
+    out = {}
+    for i, log in enumerate((bytes(wl.readTx() or b""), bytes(wl.readRx() or b""))):
+        pos = 0
+        for m in re.finditer(rb"\n(Rx|Tx) ([^\n]*):\n([a-z]*)\n", log):
+            if m.start() != pos or m.group(1) != (b"Tx", b"Rx")[i]:
+                return None
+            pos = m.end()
+            t, r = out.get(m.group(2), (b"", b""))
+            out[m.group(2)] = (t + m.group(3), r) if i == 0 else (t, r + m.group(3))
+        if pos != len(log):
+            return None
+    return out
+
+
+def run_wl_closed(case):
+    """C09. case = ("wlclosed", kind): a WireLog is attached, opened, used, then closed while the connection lives on; traffic
+    after that must still flow (nothing is recorded).  observation = (raised, bytes received == bytes delivered, bytes sent ok)"""
+    _, kind = case
+    W = _WL("std")
+    try:
+        obj, s = make_conn(kind, [("acc", 2), ("acc", 9)], [("d", b"ab"), ("f", wouldblock_codes(kind)[0]), ("d", b"cd")],
+                           [("ok",)] if is_tls(kind) else [], wl=W.wl)
+        obj.tx(b"xyz")
+        st1 = _status(obj.serviceSends) + _status(obj.serviceReceives)
+        W.wl.close()
+        st2 = _status(obj.serviceSends) + _status(obj.serviceReceives)
+        return (st1 + st2 != "okokokok", bytes(obj.rxbs) == bytes(s.kdel) == b"abcd", bytes(s.kacc) == b"xyz")
+    finally:
+        W.close()
 
 
 def run_client(case):
@@ -718,7 +788,8 @@ def run_client(case):
     ops: ("reopen",) | ("close",) | ("tick", d) | ("connect", rc, hsresp|None): next connect_ex returns rc (a handshake
     response may be queued on the current socket), then serviceConnect() | ("service", rc, hsresp|None): the same but a full
     service() pass (connect, sends, receives) | ("feed", sends, recvs): kernel responses queued on the current socket | ("tx", bytes)
-    observation per op: (status, open socket ids, id of client.cs or None, connected, cutoff, |rxbs|, |txbs|)"""
+    observation per op: (status, open socket ids, id of client.cs or None, connected, cutoff, |rxbs|, |txbs|,
+    all bytes the client's sockets have accepted so far (in socket creation order), txbs)"""
     via = "direct"
     if len(case) == 5:
         via, case = case[4], case[:4]
@@ -795,7 +866,8 @@ def _run_client(tls, recon, tmo, ops, via="direct"):
             else:
                 raise core.Infra(f"bad op {op!r}")
             cur = obj.cs.sid if obj.cs is not None else None
-            out.append((st, tuple(world.open_ids()), cur, bool(obj.connected), bool(obj.cutoff), len(obj.rxbs), len(obj.txbs)))
+            out.append((st, tuple(world.open_ids()), cur, bool(obj.connected), bool(obj.cutoff), len(obj.rxbs), len(obj.txbs),
+                        b"".join(bytes(x.kacc) for x in world.socks), bytes(obj.txbs)))
     return tuple(out)
 
 
@@ -1045,8 +1117,11 @@ def gen_server_ops(rng, tls, focus, tier="quick"):
                 ops.append(("rm", rng.randrange(1, ncas + 1)))
             elif k < 0.4:
                 ops.append(rng.choice([("closeix", rng.randrange(1, ncas + 2)), ("closeall",)]))
-            elif k < 0.6:
+            elif k < 0.55:
                 ops.append(("close",))
+            elif k < 0.65:
+                for _ in range(rng.choice([1, 1, 2, 3])):
+                    ops.append(("reopenf", rng.choice(["bind", "bind", "listen"]), rng.choice([errno.EADDRINUSE, errno.EADDRINUSE, errno.EACCES, errno.EADDRNOTAVAIL])))
             elif k < 0.8:
                 ops.append(("reopen",))
             else:
@@ -1350,6 +1425,7 @@ def run_real_faults(case):
 def run_real_life(case):
     """C11. case = ("real", tls, ops); ops: ("peer", slot) a raw peer connects from local port slot `slot` (same slot again =
     same address: the old peer is reset first) | ("svc",) | ("drop", slot) peer resets | ("close",) | ("reopen",)
+    | ("clash",) a second server is configured for the same address, fails to open twice and is closed
     The harness keeps a reference to every socket object the server obtained (so the GC cannot close anything).
     observation per close/reopen op: (number of sockets obtained so far, how many are still open); last entry: descriptor delta"""
     _, tls, ops = case
@@ -1372,16 +1448,29 @@ def run_real_life(case):
 
         def aopen(self):
             r = orig_open(self)
-            if self.ss is not None:
+            if self.ss is not None and not any(x is self.ss for x in seen):
                 seen.append(self.ss)
             return r
+
+        class RecMod:
+            """the name `socket` inside hio.core.tcp.serving: real sockets, but every one created is remembered (also the
+            listen socket of an open() that then fails to bind)"""
+
+            def __getattr__(self, name):
+                return getattr(_socket, name)
+
+            def socket(self, *a, **kw):
+                s = _socket.socket(*a, **kw)
+                seen.append(s)
+                return s
         gc.collect()
         fd0 = len(os.listdir("/proc/self/fd"))
         server = None
         peers = {}
         out = []
         try:
-            with patched(serving.Remoter, __init__=init), patched(serving.RemoterTls, wrap=wrap), patched(serving.Acceptor, open=aopen):
+            with patched(serving.Remoter, __init__=init), patched(serving.RemoterTls, wrap=wrap), patched(serving.Acceptor, open=aopen), \
+                    patched(serving, socket=RecMod()):
                 server, port = open_real_server(tls)
                 slots = {}
                 for op in ops:
@@ -1405,6 +1494,20 @@ def run_real_life(case):
                     elif k == "close":
                         server.close()
                         out.append((len(seen), sum(1 for s in seen if s.fileno() != -1)))
+                    elif k == "clash":
+                        # a second server configured for the address the first one holds: its reopen() fails to bind (twice),
+                        # then it is closed; nothing it created may stay open
+                        mine = len(seen)
+                        beta = type(server)(host="127.0.0.1", port=server.ha[1]) if not tls else None
+                        if beta is None:
+                            c = cert_paths()
+                            beta = type(server)(host="127.0.0.1", port=server.ha[1], keypath=c["skey"], certpath=c["scert"], cafilepath=c["cca"], certify=ssl.CERT_NONE)
+                        try:
+                            beta.reopen()
+                            beta.reopen()
+                        finally:
+                            beta.close()
+                        out.append((len(seen), sum(1 for s in seen[mine:] if s.fileno() != -1)))
                     elif k == "reopen":
                         if not server.reopen():
                             raise Retry("reopen could not bind")
@@ -1695,3 +1798,77 @@ def run_real_client_rst(case):
                 client.close()
             wl.close()
     return with_retries(go)
+
+
+RCS = [0, 0, errno.EINPROGRESS, errno.EALREADY, errno.ECONNREFUSED, errno.EINVAL, errno.EISCONN, errno.ETIMEDOUT]
+
+
+def gen_client_ops(rng, tls, tmo, early_tx=False):
+    """a client life: reopen / close / ticks / re-wind / kernel responses fed to the current socket / tx / connect or full
+    service passes with every connect_ex result and handshake response.  early_tx: bytes are queued before the first connect
+    and the first attempts fail (refused, in progress past the retry timer, handshake aborted) before one succeeds"""
+    kind = "clienttls" if tls else "client"
+    ops = []
+    since = 0
+    if early_tx:
+        for _ in range(rng.randrange(1, 3)):
+            ops.append(("tx", gen_bytes(rng, rng.choice([1, 4, 9]))))
+        for _ in range(rng.randrange(1, 4)):
+            m = rng.random()
+            if m < 0.4:
+                ops.append((rng.choice(["connect", "service"]), rng.choice([errno.ECONNREFUSED, errno.EINVAL]), None))
+            elif m < 0.7 and tmo:
+                ops.append((rng.choice(["connect", "service"]), errno.EINPROGRESS, None))
+                ops.append(("tick", tmo))
+                ops.append((rng.choice(["connect", "service"]), errno.EALREADY, None))
+            elif tls:
+                ops.append((rng.choice(["connect", "service"]), 0, ("f", rng.choice(conn_fault_codes(kind) + [errno.ECONNABORTED]))))
+            else:
+                ops.append(("reopen",))
+            if rng.random() < 0.4:
+                ops.append(("tx", gen_bytes(rng, rng.choice([1, 3]))))
+        ops.append(("service", 0, ("ok",) if tls else None))
+        ops.append(("feed", [("acc", rng.choice([1, 2, 1 << 30])) for _ in range(rng.randrange(1, 6))], []))
+        for _ in range(rng.randrange(1, 5)):
+            ops.append(("service", 0, None))
+    for _ in range(rng.randrange(1, 16)):
+        r = rng.random()
+        if r < 0.12:
+            ops.append(("reopen",))
+        elif r < 0.2:
+            ops.append(("close",))
+        elif r < 0.24 and tmo is not None:
+            ops.append(("wind", rng.choice([0, 3, 100])))
+            since = 0
+        elif r < 0.45 and tmo is not None:
+            d = max(0, tmo - since + rng.choice([-1, 0, 0, 1])) if (tmo and rng.random() < 0.6) else rng.choice([0, 1, 2, tmo or 3, 2 * (tmo or 1) + 1])
+            ops.append(("tick", d))
+            since = 0 if d >= (tmo or 0) else since + d
+        elif r < 0.6:
+            recvs = gen_recvs(rng, kind, rng.randrange(0, 4), fault_p=0.2, flavour=rng.choice(["conn", "wb", None]))
+            if rng.random() < 0.4:
+                recvs.append(("d", b""))          # the far side closes gracefully
+            ops.append(("feed", gen_sends(rng, kind, rng.randrange(0, 3), 6, fault_p=0.2, flavour=rng.choice(["conn", "wb"])), recvs))
+        elif r < 0.68:
+            ops.append(("tx", gen_bytes(rng, rng.choice([1, 3, 9]))))
+        else:
+            hs = None
+            if tls and rng.random() < 0.8:
+                hs = rng.choice([("ok",), ("ok",), ("f", WANT_READ), ("f", WANT_READ), ("f", WANT_WRITE), ("f", rng.choice(conn_fault_codes("clienttls") + [errno.ECONNABORTED])),
+                                 ("f", rng.choice(ALL_CODES))])
+            ops.append((rng.choice(["connect", "service", "service"]), rng.choice(RCS + [0, 0, 0]), hs))
+    if rng.random() < 0.7:
+        ops.append(("close",))
+    return ops
+
+
+def request_client(tls, recon, tmo, cops):
+    ops = []
+    for op in cops:
+        if op[0] in ("connect", "service"):
+            ops.append((op[0], op[1], tuple(op[2]) if op[2] is not None else None))
+        elif op[0] == "feed":
+            ops.append(("feed", [tuple(x) for x in op[1]], [tuple(x) for x in op[2]]))
+        else:
+            ops.append(tuple(op))
+    return ("cli", bool(tls), bool(recon), tmo, ops)
